@@ -192,6 +192,26 @@ def save_text(spec, fmt, blanks, min_t=None, max_t=None, min_len="default", via_
     return T.call(run)
 
 
+def refused_save_touches_file(spec, fmt, blanks, min_t=None, max_t=None, min_len="default"):
+    """Textgrid.save of the same arguments onto a file that already holds something: True if a save that RAISES changed or
+    removed that file ("the save raises instead of writing an inconsistent file"; round 4, C04-mutH: the destination opened
+    for writing before the text is built)"""
+    g = tgops.build(spec)
+    kw = {} if min_len == "default" else {"minimumIntervalLength": min_len}
+    fn = os.path.join(tmpdir(), "refused.TextGrid")
+    sentinel = "an earlier, good file\n"
+    with io.open(fn, "w", encoding="utf-8", newline="") as fd:
+        fd.write(sentinel)
+    r = T.call(lambda: g.save(fn, fmt, blanks, min_t, max_t, reportingMode="silence", **kw))
+    if r[0] != "err":
+        return False
+    try:
+        with io.open(fn, "r", encoding="utf-8", newline="") as fd:
+            return fd.read() != sentinel
+    except OSError:
+        return True
+
+
 def open_text(text, include_empty, dup="error", encoding="utf-8", newline="\n"):
     fn = os.path.join(tmpdir(), "o.TextGrid")
     data = text.replace("\n", newline) if newline != "\n" else text
